@@ -355,6 +355,7 @@ func argbToNRGBA(pixels []uint32, width, height int) *image.NRGBA {
 			if w == numWorkers-1 {
 				yEnd = height
 			}
+			verifhook.Range("argb-to-nrgba", 0, height, w, numWorkers, yStart, yEnd)
 			go func(yStart, yEnd int) {
 				argbToNRGBARows(pixels, pix, stride, width, yStart, yEnd)
 				wg.Done()
